@@ -57,14 +57,14 @@ def run(chk):
     thorough = chk.tier == "thorough"
     chk.assumptions += [
         "underlying writer = recording http.ResponseWriter+Flusher that can accept fewer bytes than offered or fail",
-        "ops: SetStatus(<=0, 100, 201, 404, 500), Write(0/1/3 bytes; full, short, error), Flush, http.Error, Text/HTML/JSON/JSONBytes/NoContent",
+        "ops: SetStatus(<=0, 100, 201, 299, 404, 500, 520), Write(0/1/3 bytes; full, short, error), Flush, http.Error, Text/HTML/JSON/JSONBytes/NoContent",
     ]
-    full = ["S0", "Sneg", "S100", "S200", "S201", "S404", "W0", "W1", "W3", "Wshort", "Werr", "F", "E404"]
+    full = ["S0", "Sneg", "S100", "S200", "S201", "S299", "S404", "W0", "W1", "W3", "Wshort", "Werr", "F", "E404"]
     instance(chk, "wide", 3, full)
     instance(chk, "deep", 5 if thorough else 4, ["Sneg", "S201", "S404", "W0", "W1", "Wshort", "F", "E404"] if thorough
              else ["S0", "S201", "S404", "W1", "Werr", "F", "E404"])
     # the response helpers of Context (Text, HTML, JSON, JSONBytes, NoContent) between explicit status choices and writes
-    instance(chk, "helpers", 3, ["S404", "S201", "T200", "H200e", "J201", "JB200", "NC", "W1", "F"])
+    instance(chk, "helpers", 3, ["S404", "S520", "T200", "H200e", "J201", "JB200", "NC", "W1", "F"])
     redispatch(chk, WR)
     subrouter(chk, WR)
     # the built-in 404 / 405 / OPTIONS answers on a router without any middleware: one commit, with the right status
